@@ -15,7 +15,7 @@ RULE = ("(a) in-memory reader: call sets of 2-5 samples x sample lists (subset, 
         "builder; (b) on the binary: column permutations and label-order-preserving list reorderings print identical "
         "bytes; reordering labels permutes the axes (checked by transposing the parsed spectrum); -s vs -S file with the "
         "same content print identical bytes; unknown sample / empty list exit non-zero with empty stdout. non-trivial = "
-        "list with >= 2 labels")
+        "list with >= 2 labels; a listed non-diploid genotype after a listed missing / multiallelic one in every column order is an error")
 
 
 def transpose_flat(shape, vals, perm):
@@ -55,6 +55,22 @@ def check(rep, tier, seed):
                 lperms = rng.sample(lperms, 24 if tier == "quick" else 120)
             for lp in lperms:
                 cases.append("sites %s %s - %s" % (",".join(cols), model_samples(list(lp)), model_records(recs)))
+    # a listed sample that is not diploid is an error in whichever column it stands and whatever the other listed samples
+    # hold at that site - missing or multiallelic genotypes BEFORE it included (no projection, and with one)
+    for n in (3, 4):
+        cols = names(n)
+        for _ in range(2 if tier == "quick" else 12):
+            odd = [rng.choice(["./.", "1/2", ".", "0/2"]), rng.choice(["0", "1", "0/1/1", "0|1|1", "./././."])] + [rng.choice(["0/0", "0/1", "1/1"]) for _ in range(n - 2)]
+            recs = [[rng.choice(["0/0", "0/1", "1/1"]) for _ in cols], odd, [rng.choice(["0/0", "0/1"]) for _ in cols]]
+            sm = random_map(rng, cols)
+            if len(sm) < n:
+                sm = [(c, "A" if i % 2 else "B") for i, c in enumerate(cols)]
+            for cp in itertools.permutations(range(n)):
+                pc = [cols[i] for i in cp]
+                pr = [[r[i] for i in cp] for r in recs]
+                cases.append("sites %s %s - %s" % (",".join(pc), model_samples(sm), model_records(pr)))
+                if cp[0] < cp[1]:
+                    cases.append("sites %s %s i:%s %s" % (",".join(pc), model_samples(sm), ",".join("1" for _ in dict.fromkeys(l for _, l in sm)), model_records(pr)))
     # builder corner cases
     cases += ["sites a,b EMPTY - 0/1,0/0", "sites a,b a:A,x:B - 0/1,0/0", "sites a,b x:A,y:B - 0/1,0/0",
               "sites a,b a:A,a:A - 0/1,0/0", "sites a,b,c a:A,b:B,a:B - 0/1,0/0,1/1", "sites a,b,c a:A,b:A,a:A - 0/1,0/0,1/1",
@@ -72,7 +88,8 @@ def check(rep, tier, seed):
                     dl.append(",".join("%s:%s" % (x, y) for x, y in zip(nm, lb)))
     for l in (dl if tier == "thorough" else ["a:A,b:B,b:C", "a:A,b:B,a:C", "a:A,b:B,c:C,b:A"] + rng.sample(dl, 150)):
         cases.append("sites a,b,c %s - 0/1,0/0,1/1;1/1,0/1,./." % l)
-    compare_cases(rep, "sample-map", cases, nontrivial=lambda c, m: m.startswith("SHAPE=") and "," in m.split()[0],
+    from fractions import Fraction
+    compare_cases(rep, "sample-map", cases, tol=Fraction(1, 10**9), nontrivial=lambda c, m: m.startswith("SHAPE=") and "," in m.split()[0],
                   classify=lambda c, m, i: "axes:" + ("panic" if "PANIC" in i or "PANIC" in m else "site-reader"), spec=True)
 
     # the samples-file parser itself (Map::from_reader) vs the model, on well-formed and odd files
